@@ -26,3 +26,89 @@ Proof. exact trimmed_key_covers. Qed.
 Check C01_trimmed_key_covers : forall constraints,
   npo2 constraints + 6 <= npo2 (constraints + 6) + 6.
 Print Assumptions C01_trimmed_key_covers.
+
+(* ---- algebraic completeness of the verification equation ----
+   verify_eq is the definition the reference verifier runs with BLS12-381 G1 (and which is compared with the real
+   verifier on every run of C03); here it is instantiated with the additive group of exponents: every "point" is
+   the value of its polynomial at the SRS secret tau.  For ALL challenges and values: honest opening quotients and
+   the quotient identity at z give the verdict Accept. *)
+From Coq Require Import ZArith Bool.
+From PlonkV Require Import Base.Fr Base.FrFacts Gates.Gate Alg.Poly Alg.FFT Protocol.G1 Protocol.RefVerifier Protocol.VerifierComplete.
+Import ListNotations.
+Local Open Scope fr_scope.
+Section VerifierCompleteness.
+Context {PR : PrimeR}.
+(* values at the secret (x suffix) and at z (z suffix) of the committed polynomials *)
+Variables qm_x ql_x qr_x qo_x qf_x qc_x qarith_x qlogic_x qrange_x qfixed_x qvar_x s1_x s2_x s3_x s4_x : Fr.
+Variables qm_z qo_z qf_z qlogic_z qrange_z qfixed_z qvar_z s4_z zp_z t1_z t2_z t3_z t4_z : Fr.
+Variables a_x b_x c_x d_x zp_x t1_x t2_x t3_x t4_x wz wzw : Fr.
+Variables a_e b_e c_e d_e aw_e bw_e dw_e qa_e qc_e ql_e qr_e s1_e s2_e s3_e z_e : Fr.
+Variables beta gamma alpha k_range k_logic k_fixed k_var z v vw u : Fr.
+Variables (pis : list Fr) (pi_idx : list Z) (vk_n : Z) (tau : Fr).
+
+Let vkp := [qm_x; ql_x; qr_x; qo_x; qf_x; qc_x; qarith_x; qlogic_x; qrange_x; qfixed_x; qvar_x; s1_x; s2_x; s3_x; s4_x].
+Let pp := [a_x; b_x; c_x; d_x; zp_x; t1_x; t2_x; t3_x; t4_x; wz; wzw].
+Let ev := [a_e; b_e; c_e; d_e; aw_e; bw_e; dw_e; qa_e; qc_e; ql_e; qr_e; s1_e; s2_e; s3_e; z_e].
+Let chs := [beta; gamma; alpha; k_range; k_logic; k_fixed; k_var; z; v; vw; u].
+
+(* the verifier's scalars *)
+Let k := domain_log (Z.to_nat vk_n).
+Let nF := F (2 ^ Z.of_nat k).
+Let omega := domain_gen k.
+Let z_n := fpow z (N.of_nat (Nat.pow 2 k)).
+Let z_h := z_n - 1.
+Let den0 := nF * (z - 1).
+Let nz := filter (fun '(_, e) => negb (feqb e 0)) (combine pi_idx pis).
+Let dens := map (fun '(i, _) => fpow (finv omega) (Z.to_N i) * z - 1) nz.
+Let l1 := z_h * finv den0.
+Let pi_eval := fsum_list (map (fun '((_, e), d) => finv d * e) (combine nz dens)) * z_h * finv nF.
+Let r0 := pi_eval - l1 * (alpha * alpha)
+          - alpha * (a_e + beta * s1_e + gamma) * (b_e + beta * s2_e + gamma) * (c_e + beta * s3_e + gamma) * (d_e + gamma) * z_e.
+Let gsel := mkGate 0 ql_e qr_e 0 0 qc_e 0 1 1 1 1 O O O O.
+Let w := mkWires a_e b_e c_e d_e.
+Let nx := mkWires aw_e bw_e 0 dw_e.
+Let perm_id := (a_e + beta * z + gamma) * (b_e + beta * F 7 * z + gamma) * (c_e + beta * F 13 * z + gamma)
+               * ((d_e + beta * F 17 * z + gamma) * alpha) + l1 * (alpha * alpha).
+Let perm_cp := - ((a_e + beta * s1_e + gamma) * (b_e + beta * s2_e + gamma) * (c_e + beta * s3_e + gamma) * (beta * z_e * alpha)).
+
+
+Let result := verify_eq exp_group vkp pp 1 chs ev pis pi_idx vk_n tau.
+Let LIN := lin a_e b_e c_e d_e aw_e bw_e dw_e qa_e qc_e ql_e qr_e s1_e s2_e s3_e z_e beta gamma alpha k_range k_logic k_fixed k_var z vk_n.
+
+Theorem C01_verifier_accepts_honest_proof :
+  (* quotient identity at z *)
+  LIN qm_z ql_e qr_e qo_z qf_z qc_e qrange_z qlogic_z qfixed_z qvar_z zp_z s4_z t1_z t2_z t3_z t4_z + r0 = 0 ->
+  (* W_z is the quotient opening the linearisation polynomial and the eleven batched polynomials at z *)
+  wz * (tau - z)
+    = (LIN qm_x ql_x qr_x qo_x qf_x qc_x qrange_x qlogic_x qfixed_x qvar_x zp_x s4_x t1_x t2_x t3_x t4_x
+       - LIN qm_z ql_e qr_e qo_z qf_z qc_e qrange_z qlogic_z qfixed_z qvar_z zp_z s4_z t1_z t2_z t3_z t4_z)
+      + v * (a_x - a_e) + v * v * (b_x - b_e) + v * v * v * (c_x - c_e) + v * v * v * v * (d_x - d_e)
+      + fpow_nat v 5 * (s1_x - s1_e) + fpow_nat v 6 * (s2_x - s2_e) + fpow_nat v 7 * (s3_x - s3_e)
+      + fpow_nat v 8 * (qarith_x - qa_e) + fpow_nat v 9 * (qc_x - qc_e) + fpow_nat v 10 * (ql_x - ql_e) + fpow_nat v 11 * (qr_x - qr_e) ->
+  (* W_zw opens z, a, b, d at z * omega *)
+  wzw * (tau - z * omega)
+    = (zp_x - z_e) + vw * (a_x - aw_e) + vw * vw * (b_x - bw_e) + vw * vw * vw * (d_x - dw_e) ->
+  (* the verifier's own guard against zero denominators *)
+  feqb den0 0 || existsb (fun d => feqb d 0) dens = false ->
+  result = (Accept, chs, 0).
+Proof. exact (verify_eq_complete_from_quotient_identity qm_x ql_x qr_x qo_x qf_x qc_x qarith_x qlogic_x qrange_x qfixed_x qvar_x s1_x s2_x s3_x s4_x
+  qm_z qo_z qf_z qlogic_z qrange_z qfixed_z qvar_z s4_z zp_z t1_z t2_z t3_z t4_z a_x b_x c_x d_x zp_x t1_x t2_x t3_x t4_x wz wzw
+  a_e b_e c_e d_e aw_e bw_e dw_e qa_e qc_e ql_e qr_e s1_e s2_e s3_e z_e beta gamma alpha k_range k_logic k_fixed k_var z v vw u pis pi_idx vk_n tau). Qed.
+
+(* the quotient identity at z IS the row identity + permutation identity + first-Lagrange term - Z_H(z) t(z),
+   with the selector polynomials' values at z as the gate and PI(z) as the public input *)
+Theorem C01_quotient_identity_is_row_identity :
+  let G := mkGate qm_z ql_e qr_e qo_z qf_z qc_e qa_e qrange_z qlogic_z qfixed_z qvar_z O O O O in
+  LIN qm_z ql_e qr_e qo_z qf_z qc_e qrange_z qlogic_z qfixed_z qvar_z zp_z s4_z t1_z t2_z t3_z t4_z + r0
+  = row_sum G w nx k_range k_logic k_fixed k_var pi_eval
+    + alpha * ((a_e + beta * z + gamma) * (b_e + beta * F 7 * z + gamma) * (c_e + beta * F 13 * z + gamma) * (d_e + beta * F 17 * z + gamma) * zp_z
+               - (a_e + beta * s1_e + gamma) * (b_e + beta * s2_e + gamma) * (c_e + beta * s3_e + gamma) * (d_e + beta * s4_z + gamma) * z_e)
+    + alpha * alpha * l1 * (zp_z - 1)
+    - z_h * (t1_z + z_n * t2_z + z_n * z_n * t3_z + z_n * z_n * z_n * t4_z).
+Proof. exact (quotient_identity_is_row_identity qm_z qo_z qf_z qlogic_z qrange_z qfixed_z qvar_z s4_z zp_z t1_z t2_z t3_z t4_z
+  a_e b_e c_e d_e aw_e bw_e dw_e qa_e qc_e ql_e qr_e s1_e s2_e s3_e z_e beta gamma alpha k_range k_logic k_fixed k_var z pis pi_idx vk_n). Qed.
+End VerifierCompleteness.
+Check @C01_verifier_accepts_honest_proof.
+Print Assumptions C01_verifier_accepts_honest_proof.
+Check @C01_quotient_identity_is_row_identity.
+Print Assumptions C01_quotient_identity_is_row_identity.
